@@ -53,6 +53,13 @@ func c01Bind(payload, as string) interface{} {
 	case "ptr":
 		p := payload
 		return &p
+	case "ptrptr":
+		p := payload
+		q := &p
+		return &q
+	}
+	if v, ok := bindNumeric(as, payload); ok {
+		return v
 	}
 	return payload
 }
@@ -336,7 +343,7 @@ func c01Check(r *core.Run, st *c01stats, sigs *sync.Map, nsigs *int64, fam c01Fa
 		}
 		kinds := []string{"string"}
 		if n.Depth <= 3 {
-			kinds = []string{"string", "stringer", "error", "ptr"}
+			kinds = append([]string{"string", "stringer", "error", "ptr", "ptrptr"}, numericKinds...)
 		}
 		for _, pl := range c01Payloads {
 			for _, as := range kinds {
